@@ -55,3 +55,29 @@ CLAIMED.update({
 })
 
 PENDING = {}
+
+# --- additions after the second round of rules (see DESIGN.md §5.1)
+CLAIMED["C02"]["technique"] += ", failure-after-change control-flow rule with callee summaries (A4-inert)"
+CLAIMED["C02"]["text"] += "; no failure point reachable after a change point in the string family (failed commands inert)"
+CLAIMED["C03"]["technique"] = T + ": path-by-path shape abstract interpretation of the doubly linked list (R-list-shape), use-after-detach rule, alias-after-detach rule, failure-after-change rule (A4-inert), path coverage rules (A4-empty, A4-nonempty-create), constructor agreement, nilness, A7"
+CLAIMED["C03"]["text"] = L("every function that writes list links leaves the written heap well formed on every path (back links, ends, count), no read of a detached node, no push onto a detached list, failed list commands inert, no empty list left behind, WRONGTYPE discipline, argument agreement")
+CLAIMED["C04"]["technique"] += ", failure-after-change rule (A4-inert)"
+CLAIMED["C04"]["text"] += "; failed hash commands inert"
+CLAIMED["C05"]["technique"] = T + ": interprocedural ownership (freshness) of installed payloads (R-payload-own), early-exit classification of operand loops, count-guard dominance for computed results, key-name comparison rule for member moves, effect classification (A5-readonly), A4-inert, path coverage rules, nilness, A7"
+CLAIMED["C05"]["text"] = L("a STORE form installs a new object never shared with an operand, an empty result deletes the destination, workers leave the operand loop early only for failure or the absorbing empty set, SMOVE compares source and destination, the algebra reaches no mutation site, failed commands inert, no empty set left behind")
+CLAIMED["C06"]["technique"] += ", expiry filter (A6), failure-after-change rule (A4-inert), payload ownership and non-empty install rules"
+CLAIMED["C06"]["text"] = L("no empty aggregate left behind or installed, type flag and payload agree, failed commands inert on every path, keyspace commands see only unexpired keys, payload objects are never shared between keys, options of keyspace commands are producible by the grammar")
+CLAIMED["C08"]["technique"] += ", one critical section per command (A3), payload-byte immutability, one lock object per database (table/SELECT rules)"
+CLAIMED["C08"]["text"] = L("every access to database state holds the database mutex on every call path from every root; no function leaks it; one critical section per command; published byte payloads are never written in place; one database object (and mutex) per index")
+CLAIMED["C09"]["technique"] += ", slice of skip conditions against the guarded-by table (R-C09-replay-unconditional)"
+CLAIMED["C09"]["text"] += "; no branch that can skip a replayed command reads state another goroutine can change"
+CLAIMED["C11"]["technique"] += ", dominance of the wake over every return of the wrapper"
+CLAIMED["C11"]["text"] += "; the wake is unconditional (also when the pusher owns the exclusive lock)"
+CLAIMED["C12"]["technique"] += ", clock-provenance of the timer duration, sibling agreement of the timeout conversion"
+CLAIMED["C12"]["text"] += "; the timer is armed with a remaining time; all blocking commands convert the timeout identically"
+CLAIMED["C14"]["technique"] += ", range-check / loop-bound agreement for enumerations of the table"
+CLAIMED["C14"]["text"] += "; every enumeration of the database table covers all admitted indexes"
+CLAIMED["C15"]["text"] += "; no helper returns its input collection unconverted"
+CLAIMED["C19"]["technique"] += ", enumeration completeness of the database table"
+CLAIMED["C20"]["technique"] += ", loop-exit rule for termination arms, must-pass release rule in RequestTermination"
+CLAIMED["C20"]["text"] = L("termination reaches the connections, no process exit on environment errors, no per-process shared registries, live retry loop (currently known findings; any new instance is reported); a goroutine's termination arm never flows back into its loop; RequestTermination releases listener and cancel function on every path")
